@@ -168,6 +168,15 @@ def loops_of(prov, fn):
             if t["callee"]["key"] in ("std::iter::Iterator::next", "std::iter::DoubleEndedIterator::next_back")]
 
 
+def loops_yielding(prov, fn, elem):
+    """the loops of `fn` whose element is `elem` (an origin ("bound","elem",src)): [(next block, iterator as written)]"""
+    from .prov import strip_adapters, same_origin
+    e = peel(elem)
+    if e[0] != "bound" or e[1] != "elem":
+        return []
+    return [(nb, src) for nb, src in loops_of(prov, fn) if same_origin(strip_adapters(src), e[2])]
+
+
 def chain_adapters(src):
     """names of the iterator adapters between the loop and the collection it walks (outermost first)"""
     out = []
@@ -455,3 +464,51 @@ def router_querier(o):
     if o[0] == "call" and o[1] in ("app::RouterQuerier::new", "app::Router::querier") and len(o[2]) == 4:
         return {"router": o[2][0], "api": o[2][1], "storage": o[2][2], "block_info": o[2][3]}
     return None
+
+
+def presence_edges(prov, fn, is_source):
+    """switches that decide whether an optional value is there - on the Option itself (`match x { Some.. None.. }`,
+    `let Some(v) = x else ..`) or on the Result made from it by ok_or / ok_or_else followed by `?`:
+    ([edges on which it is present], [edges on which it is absent]); is_source(origin) selects the Option"""
+    cfg = cfg_of(fn)
+    present, absent = [], []
+    for sb in fn.order:
+        tt = fn.blocks[sb]["term"]
+        if tt["k"] != "switch" or "discr_of" not in tt:
+            continue
+        so = peel(prov.place(fn, tt["discr_of"], (sb, "t")))
+        is_opt = is_source(so)
+        is_res = so[0] == "call" and so[1] in ("std::option::Option::ok_or_else", "std::option::Option::ok_or") and so[2] and is_source(peel(so[2][0]))
+        if not (is_opt or is_res):
+            continue
+        for e, v, n, tb in cfg.switch_edges(sb):
+            if n in ("Some", "Continue", "Ok"):
+                present.append(e)
+            elif n in ("None", "Break", "Err"):
+                absent.append(e)
+            elif n is None and is_opt:
+                # `otherwise` of a switch that lists only one Option variant
+                listed = [x[2] for x in tt["targets"]]
+                if listed == ["Some"]:
+                    absent.append(e)
+                elif listed == ["None"]:
+                    present.append(e)
+    return present, absent
+
+
+def only_errors_from(prov, fn, node, forbidden_blocks=()):
+    """every way on from `node` ends in an error return: no assignment of a non-error value to the return place and none of
+    the forbidden blocks (writes, loop heads) is reachable"""
+    cfg = cfg_of(fn)
+    reach = cfg.reachable_from(node)
+    if any(b in reach for b in forbidden_blocks):
+        return False
+    for b2, i2, st in fn.stmts():
+        if b2 in reach and st["k"] == "assign" and st["dst"]["l"] == 0 and not st["dst"]["p"]:
+            o = peel(prov.rvalue(fn, st["rv"], (b2, i2)))
+            if not ((o[0] == "agg" and o[1].endswith("Result::Err")) or (o[0] == "call" and o[1].endswith("FromResidual::from_residual"))):
+                return False
+    for b2, t in fn.calls():
+        if b2 in reach and t["dst"]["l"] == 0 and not t["dst"]["p"] and not t["callee"]["key"].endswith("FromResidual::from_residual"):
+            return False
+    return True
